@@ -245,6 +245,17 @@ def run(ck: Check):
             sc["linger_ms"] = rng.choice([5, 50, 200])
             sc["flush_after"] = [rng.choice([0.0005, 0.002, 0.011, 0.05, 0.101, 0.3]) for _ in range(rng.choice([1, 2]))]
         scs.append(sc)
+    # stop() issued while batches are in flight / in retry back-off and more are queued behind them (small batches,
+    # several send tasks, retriable faults): what is written until the producer is gone still obeys every clause
+    import c02 as _c02
+    rng_stop = random.Random(ck.seed * 7121 + 111)
+    for j in range(ck.n(40, 400)):
+        sc = _c02.gen_parked_stop(rng_stop, 600000 + j)
+        sc["idempotent"] = j % 5 != 4
+        if not sc["idempotent"]:
+            sc.setdefault("acks", 1)
+        sc["stop_after"] = rng_stop.choice([0.002, 0.005, 0.01, 0.03, 0.06, 0.1, 0.2])
+        scs.append(sc)
     rng_old = random.Random(ck.seed * 7121 + 101)
     for j in range(ck.n(24, 300)):
         scs.append(prodsim.old_broker(prodsim.gen_scenario(rng_old, 700000 + j, idempotent=(j % 4 != 3)), rng_old))
